@@ -918,6 +918,8 @@ impl ParserListener for Screen {
                 if y + count <= bottom as u32 {
                     if let Some(line) = self.buffer.remove(&y) {
                         self.buffer.insert(y + count, line);
+                    } else {
+                        self.buffer.remove(&(y + count));
                     }
                 } else {
                     self.buffer.remove(&y);
@@ -941,6 +943,8 @@ impl ParserListener for Screen {
                 if y + count <= bottom {
                     if let Some(line) = self.buffer.remove(&(y + count)) {
                         self.buffer.insert(y, line);
+                    } else {
+                        self.buffer.remove(&y);
                     }
                 } else {
                     self.buffer.remove(&y);
